@@ -273,16 +273,33 @@ def c_grid3_maps(chk):
            meta={"hint": HINT})
 
 
-def c_cache(chk):
-    """After __init__ / change*FalloffScale the cached arrays equal the maps of the current parameters."""
+def c_cache(chk, momentum_only=False):
+    """After __init__ / change*FalloffScale the cached arrays equal the maps of the current parameters.
+    (momentum_only: just Grid.changeMomentumFalloffScale, the part other properties rely on.)"""
     nodes = [real("c0"), real("c1")]
     rzn = [real("rz0")]
     rpn = [real("rp0"), real("rp1")]
 
+    _pre_cache = {}
+
     def fresh_cache(g):
+        """pre-state: the class invariant holds - the cache is current for the OLD parameters (so an implementation may legitimately
+        update it incrementally); computed once per class from the maps themselves"""
         g.attrs.update(chiValues=as_array(nodes), rzValues=as_array(rzn), rpValues=as_array(rpn))
-        for n in ("xiValues", "pzValues", "ppValues", "dxidchi", "dpzdrz", "dppdrp"):
-            g.attrs[n] = Stale(f"cache.{n}")
+        key = g.cls
+        if key not in _pre_cache:
+            final = {k: v for k, v in g.attrs.items() if not isinstance(v, (np.ndarray, Stale))}
+
+            def mkp(it):
+                o = SymObj(g.cls, g.module, label="pre")
+                o.attrs.update(final)
+                return o, [as_array(nodes), as_array(rzn), as_array(rpn)], {}, {}
+            (d0,) = sel(chk.summarize(g.module, f"{g.cls}.decompactify", mkp, record=False))
+            (j0,) = sel(chk.summarize(g.module, f"{g.cls}.compactificationDerivatives", mkp, record=False))
+            _pre_cache[key] = (d0.value, j0.value)
+        d0v, j0v = _pre_cache[key]
+        for n, v in list(zip(("xiValues", "pzValues", "ppValues"), d0v)) + list(zip(("dxidchi", "dpzdrz", "dppdrp"), j0v)):
+            g.attrs[n] = as_array(v).copy()
         return g
 
     def expect(chk_name, g, paths_pc, module, cls, mk_params, fn):
@@ -308,6 +325,9 @@ def c_cache(chk):
 
     new = real("newScale")
     for meth, param in (("changeMomentumFalloffScale", "momentumFalloffT"), ("changePositionFalloffScale", "positionFalloff")):
+        if momentum_only and meth != "changeMomentumFalloffScale":
+            continue
+
         def mk(it):
             for c in GRID_INV + [Gt(new, 0)]:
                 it.assume(c)
@@ -317,6 +337,8 @@ def c_cache(chk):
             g = p.state["g"]
             chk.vc(f"Grid.{meth}.sets-parameter.{i}", p.pc, Eq(g.attrs[param], new), func=f"grid.Grid.{meth}", kind="frame")
             expect(f"Grid.{meth}.cache-is-current.{i}", g, p.pc, "grid", "Grid", None, f"grid.Grid.{meth}")
+    if momentum_only:
+        return
     # Grid3Scales.changePositionFalloffScale(tailIn, tailOut, L, centre)
     n_t = [real(f"new.{n}") for n in ("tailLengthInside", "tailLengthOutside", "wallThickness", "wallCenter")]
 
